@@ -194,7 +194,15 @@ func (e *Engine) InvMethod(pkgPath string, fn *types.Func, sp *spec.File) (rep *
 	fr.onRet = func(st *State, rets []Val) { record(st) }
 	// callees under contract (in this module or a used one) are replaced by their contracts
 	v.modular = true
-	if fs := e.specOf(fn); fs != nil && !returnsIterator(fn) {
+	if fs := e.specOf(fn); fs != nil && fs.InputOnly {
+		// stated input assumptions of this method (bounds granted by the property text); the body is executed
+		for _, c := range fs.Clauses {
+			if c.Kind == "requires" {
+				v.reqs = append(v.reqs, v.pre.Tr(c.E).T)
+			}
+		}
+		e.stmts(fr, st, decl.Body.List, func(st *State) { record(st) })
+	} else if fs := e.specOf(fn); fs != nil && !returnsIterator(fn) {
 		// the method is under contract in a used module (where the contract is verified): the invariants are checked
 		// against that contract - its preconditions are input assumptions here, its postconditions describe the exit
 		for _, c := range fs.Clauses {
